@@ -113,6 +113,16 @@ Theorem C04_external_any_offset :
 Proof. exact external_any_offset. Qed.
 Print Assumptions C04_external_any_offset.
 
+(* KNOWN FINDING torch-conj-bytes: a TorchTensor over a lazily conjugated complex torch view (RTorchConj, not
+   among the `represents` constructors) returns the conjugated values from numpy() but the unconjugated storage
+   from tobytes()/tofile(); proposed_fixes/C04-torch-conj-bytes.diff resolves the view first. *)
+Theorem C04_torch_conj_refuted :
+  exists dt shape storage xs,
+    logical dt shape xs /\ r_numpy (RTorchConj dt shape storage) = Ok xs
+    /\ r_tobytes (RTorchConj dt shape storage) <> Ok (le_pack dt xs).
+Proof. exact torch_conj_refuted. Qed.
+Print Assumptions C04_torch_conj_refuted.
+
 (* Serialization keeps the data: the proto written for a representation represents the same data. *)
 Theorem C04_serialize_represents :
   forall dt shape xs r, logical dt shape xs -> represents dt shape xs r ->
